@@ -93,6 +93,19 @@ KNOWN = [
      "time-like NNLO valence anomalous dimension has the wrong overall sign on its non-singlet part (as3.gamma_nsv returns -(gamma_nsm + nf PS2)): large-N slope -A_3 instead of +A_3; not repaired: tests/ekore/anomalous_dimensions/unpolarized/time_like/test_as3.py::test_nsv pins the current values"),
 ]
 
+for _d in ("up", "down"):
+    KNOWN.append(("C50", f"exponent/unpol/n=3/{_d}/class=intrinsic",
+                  "NNLO matching of an intrinsic heavy-quark input: the O(a_s^2) matching elements of the intrinsic column are not implemented (doc/source/theory/Matching.rst: 'not encoded'), so the evolved PDFs depend on the matching ratio at O(a_s^2) (exponent 2.0 < 3); not repaired: missing physics input"))
+    for _n in (2, 3):
+        KNOWN.append(("C50", f"exponent/pol/n={_n}/{_d}/class=intrinsic",
+                      "polarised evolution has no matching elements for an intrinsic heavy-quark input at all: dependence on the matching ratio at O(a_s) (exponent 1.0); not repaired: missing physics input"))
+        KNOWN.append(("C50", f"exponent/tl/n={_n}/{_d}/class=intrinsic",
+                      "time-like evolution has no matching elements for an intrinsic heavy-quark input: dependence on the matching ratio at O(a_s) (exponent 1.0); not repaired: missing physics input"))
+    KNOWN.append(("C50", f"exponent/pol/n=3/{_d}/class=light",
+                  "polarised NNLO: A_Hg^(2) single-log coefficient is twice the RG value (see C29 rg-derivative/ps/A2/entry=Hg): dependence on the matching ratio at O(a_s^2) (exponent 2.0 < 3); test-pinned, not repaired"))
+    KNOWN.append(("C50", f"exponent/tl/n=3/{_d}/class=light",
+                  "time-like NNLO matching conditions are unknown and set to zero (documented in TimeLike.rst): dependence on the matching ratio at O(a_s^2) (exponent 2.0 < 3); not repairable"))
+
 
 def commit_of(phrase):
     out = subprocess.run(
